@@ -25,6 +25,9 @@ func verif_prev[T any](x T) T { return x }
 func verif_forall(f any) bool
 func verif_exists(f any) bool
 func verif_fresh(p any) bool
+func verif_istype[T any](x any) bool { _, ok := x.(T); return ok }
+func verif_fst[A, B any](a A, b B) A { return a }
+func verif_snd[A, B any](a A, b B) B { return b }
 func verif_same(a, b any) bool
 func verif_raw(a any) int
 func verif_calls(name string) int
@@ -158,6 +161,39 @@ func importsText(f *ast.File) string {
 	return b.String()
 }
 
+// importsTextExtra: the file's imports plus the contract file's `//@ import alias "path"` lines that do not
+// clash with them (by alias or by path).
+func importsTextExtra(f *ast.File, extra []string) string {
+	var b strings.Builder
+	b.WriteString("import (\n")
+	seenAlias, seenPath := map[string]bool{}, map[string]bool{}
+	for _, im := range f.Imports {
+		p := strings.Trim(im.Path.Value, `"`)
+		seenPath[p] = true
+		if im.Name != nil {
+			seenAlias[im.Name.Name] = true
+			b.WriteString("\t" + im.Name.Name + " " + im.Path.Value + "\n")
+		} else {
+			seenAlias[p[strings.LastIndex(p, "/")+1:]] = true
+			b.WriteString("\t" + im.Path.Value + "\n")
+		}
+	}
+	for _, ex := range extra {
+		fs := strings.Fields(ex)
+		if len(fs) != 2 {
+			continue
+		}
+		p := strings.Trim(fs[1], `"`)
+		if seenAlias[fs[0]] {
+			continue
+		}
+		seenAlias[fs[0]], seenPath[p] = true, true
+		fmt.Fprintf(&b, "\t%s %q\n", fs[0], p)
+	}
+	b.WriteString(")\n")
+	return b.String()
+}
+
 func recvTypeText(fd *ast.FuncDecl) string {
 	if fd.Recv == nil || len(fd.Recv.List) == 0 {
 		return ""
@@ -225,7 +261,7 @@ func (e *Engine) prepareRepoPackage(rel string, overlay map[string][]byte) error
 		if s, ok := syn[src]; ok {
 			return s
 		}
-		s := &synFile{imports: importsText(files[src])}
+		s := &synFile{imports: importsTextExtra(files[src], cf.Imports)}
 		syn[src] = s
 		return s
 	}
